@@ -63,7 +63,8 @@ def scratchLen (t : Table) : SizeSrc → Option Nat
   | .sizeHint => none
 
 /-- the tables proved consistent in `Theorems/C06.lean`, one constructor per `C06_consistent_<Type>` theorem, with
-that theorem's hypotheses -/
+that theorem's hypotheses (the `< 100` / `Bounded` side conditions are kept for compatibility; the C06 theorems
+no longer need them since the pair code became `pcode`) -/
 inductive StorageTable : Table → Prop
   | graph (s : G.State) (h : C01T.Inv s) : StorageTable (graphTable s)
   | graphMap (s : GM.State) (h : GMProofs.Inv s) (hb : Visit.GMBounded s) : StorageTable (graphMapTable s)
@@ -80,12 +81,12 @@ inductive StorageTable : Table → Prop
 theorem StorageTable.consistent {t : Table} (h : StorageTable t) : ∃ qs, TableConsistent qs t := by
   cases h with
   | graph s h => exact ⟨_, C06T.C06_consistent_Graph s h⟩
-  | graphMap s h hb => exact ⟨_, C06T.C06_consistent_GraphMap s h hb⟩
+  | graphMap s h hb => exact ⟨_, C06T.C06_consistent_GraphMap s h⟩
   | csrDirected s h hf hd => exact ⟨_, C06T.C06_consistent_Csr s h hf hd⟩
-  | csrUndirected s h hf hd h100 hc => exact ⟨_, C06T.C06_consistent_Csr_undirected_repairD7 s h hf hd h100 hc⟩
-  | list s h hb => exact ⟨_, C06T.C06_consistent_List s h hb⟩
-  | matrixUndirected s g h r hb hd => exact ⟨_, C06T.C06_consistent_MatrixGraph_undirected h r hb hd⟩
-  | matrixDirected s g h r hb hd => exact ⟨_, C06T.C06_consistent_MatrixGraph_directed_repairD6 h r hb hd⟩
+  | csrUndirected s h hf hd h100 hc => exact ⟨_, C06T.C06_consistent_Csr_undirected_repairD7 s h hf hd hc⟩
+  | list s h hb => exact ⟨_, C06T.C06_consistent_List s h⟩
+  | matrixUndirected s g h r hb hd => exact ⟨_, C06T.C06_consistent_MatrixGraph_undirected h r hd⟩
+  | matrixDirected s g h r hb hd => exact ⟨_, C06T.C06_consistent_MatrixGraph_directed_repairD6 h r hd⟩
 
 /-- the two repairs (findings D6, D7) touch edge fields only: ids, indices, bounds and counts of nodes are those of
 the table as it stands -/
